@@ -525,7 +525,23 @@ class Engine(ExprMixin, CallMixin, StmtMixin):
                 ob.result = {"status": "unsat", "time": round(time.time() - t0, 4),
                              "backend": "z3-" + z3.get_version_string() + "(ground hypotheses)"}
                 return ob.result
-        for a in self.axioms_for(c, ob):
+        axioms = list(self.axioms_for(c, ob))
+        # phase 2: the whole context, quantifiers instantiated by E-matching only. An `unsat` here is a proof;
+        # anything else falls through to the default configuration (MBQI diverges on some ∃/∀ alternations that
+        # pattern instantiation settles at once).
+        s1 = z3.Solver()
+        s1.set("smt.auto_config", False)
+        s1.set("smt.mbqi", False)
+        s1.set("rlimit", int(timeout_ms * 250))
+        s1.set("timeout", timeout_ms * 2)
+        s1.add(*axioms)
+        s1.add(*ob.pc)
+        s1.add(z3.Not(ob.goal))
+        if s1.check() == z3.unsat:
+            ob.result = {"status": "unsat", "time": round(time.time() - t0, 4),
+                         "backend": "z3-" + z3.get_version_string() + "(e-matching)"}
+            return ob.result
+        for a in axioms:
             s.add(a)
         s.add(*ob.pc)
         s.add(z3.Not(ob.goal))
